@@ -188,7 +188,7 @@ def _task(i):
             T.run()
             # (2) emitted C against nmfu's tree
             for r in T.results:
-                if r.family == "refine":
+                if r.family in ("refine", "consume"):
                     out["results"].append(("refine", " ".join(flags) + "/" + r.oid, r.verdict, r.what, r.secs))
             if flags != ["-O1"]:
                 continue
